@@ -90,6 +90,8 @@ class Engine(Conc, Executor, Calls):
                             cl.ast = parse_expr(cl.text)
                             cl.extra["trace"] = uses_trace(cl.ast)
                             cl.extra["caller_view"] = caller_view(cl.ast)
+                        elif cl.kind == "refuses":
+                            cl.ast = parse_expr(cl.text.split(" -- ")[0])
                         elif cl.kind == "modifies":
                             cl.extra["targets"] = [parse_expr(x.strip()) for x in split_top(cl.text)]
                         elif cl.kind == "after":
@@ -835,7 +837,22 @@ class Engine(Conc, Executor, Calls):
             oc.proved += 1
         else:
             oc.failed.append({"reason": "no returning path"})
-        if panics and "nopanic" not in decl.flags or panics:
+        refuses = decl.get("refuses")
+        if panics and refuses:
+            # `refuses <cond>`: a deliberate panic is this function's way of refusing an input; every panicking path must be one on which the
+            # stated condition (over the entry state) holds - a panic for any other reason is still a violation
+            o = self.obl("safety", "panic", refuses[0].tags or self.cur["safety_props"])
+            for p in panics:
+                cp = SpecCtx(self, p.st, entry, dict(names), fr_pkg=fn["pkg"])
+                cp.name_types = dict(name_types)
+                try:
+                    goal = to_bool(cp.eval(("old", refuses[0].ast)))
+                except (SpecError, Unsupported) as e:
+                    o.instances += 1
+                    o.unknown.append({"pos": p.info, "reason": "spec error: %s" % e})
+                    continue
+                self.record(o, p.st, goal, p.info)
+        elif panics:
             o = self.obl("safety", "panic", self.cur["safety_props"])
             for p in panics:
                 o.instances += 1
